@@ -90,7 +90,7 @@ def run(R):
             if t["t"] == "drop" and t["pl"]["l"] == g and not t["pl"]["p"]:
                 rel.add(bb)
         for c in p.calls():
-            if c.name() == "drop" and c.args and F.op_local(c.args[0]) == g:
+            if c.name() == "drop" and c.args and p.alias_root(c.args[0]) == g:
                 rel.add(c.bb)
         R.ob("C10-R1", "released", "the guard is released explicitly or at scope end", bool(rel), where=p.where())
         after_rel = set()
